@@ -5,6 +5,7 @@ everywhere. Keeps the refactor as refactors/<Cxx>-r<i>/ (patch.diff, notes.md, m
 import json, os, re, shutil, subprocess, sys, time
 R = os.path.dirname(os.path.dirname(os.path.abspath(__file__)))
 pid, src = sys.argv[1], sys.argv[2]
+tag = sys.argv[3] if len(sys.argv) > 3 else "r"
 props = [json.loads(l) for l in open(os.path.join(R, "properties.jsonl"))]
 for i in sorted(os.listdir(src)):
     d = os.path.join(src, i)
@@ -13,7 +14,7 @@ for i in sorted(os.listdir(src)):
         continue
     files = set(re.findall(r"^\+\+\+ b/(\S+)", open(pf).read(), re.M))
     rel = sorted({pid} | {p["id"] for p in props if files & set(p["anchors"]["files"])})
-    dst = os.path.join(R, "refactors", f"{pid}-r{i}")
+    dst = os.path.join(R, "refactors", f"{pid}-{tag}{i}")
     os.makedirs(dst, exist_ok=True)
     for f in ("patch.diff", "notes.md"):
         if os.path.exists(os.path.join(d, f)):
@@ -25,9 +26,9 @@ for i in sorted(os.listdir(src)):
         line = [l for l in r.stdout.splitlines() if l.startswith(f"[{q} ")]
         line = line[-1] if line else r.stdout[-200:]
         res[q] = "VIOLATION" + (" no-failing-input-found" if "no-failing-input-found" in line else "") if "VIOLATION" in line else ("OK" if " OK property=" in line else "error: " + line[-160:])
-    meta = {"id": f"{pid}-r{i}", "written_for": pid, "files": sorted(files), "author": "independent sub-agent asked for behaviour-preserving refactors, given only the property text",
+    meta = {"id": f"{pid}-{tag}{i}", "written_for": pid, "files": sorted(files), "author": "independent sub-agent asked for behaviour-preserving refactors, given only the property text",
             "quick_checks": res, "wall_s": round(time.time() - t),
             "evaluated_at_verif_commit": subprocess.run(["git", "-C", R, "log", "--format=%h", "-1"], capture_output=True, text=True).stdout.strip(),
             "repo_head": subprocess.run(["git", "-C", "/repo", "log", "--format=%h", "-1"], capture_output=True, text=True).stdout.strip()}
     json.dump(meta, open(os.path.join(dst, "meta.json"), "w"), indent=1)
-    print(f"{pid}-r{i}", sorted(files), res, flush=True)
+    print(f"{pid}-{tag}{i}", sorted(files), res, flush=True)
